@@ -550,14 +550,14 @@ def check_as_reactions(case, ctx):
 
 
 SUBCHECKS = [
-    SubCheck("history", machine=machine, quick=1200, thorough=24000, steps=(10, 16),
+    SubCheck("history", machine=machine, quick=1200, thorough=40000, steps=(10, 16),
              rule="state machine: operands + n*e / e*n / -e / e1+e2 / e1-e2 over a pool; model = net stoichiometry "
                   "Counter + exponent vector over operand constants; every result compared",
              tolerances={"float_param_rel": FLOAT_RTOL}),
-    SubCheck("eliminate", check_eliminate, strategy=eliminate_cases(), quick=1500, thorough=40000,
+    SubCheck("eliminate", check_eliminate, strategy=eliminate_cases(), quick=1500, thorough=60000,
              rule="pairs sharing species A with net coefficients +-1..+-12; multipliers non-zero ints, m1 v1 + m2 v2 = 0, "
                   "m1*e1 + m2*e2 lists A on neither side, is netted, and has constant K1^m1 K2^m2"),
-    SubCheck("as_reactions", check_as_reactions, strategy=as_reactions_cases(), quick=1000, thorough=20000,
+    SubCheck("as_reactions", check_as_reactions, strategy=as_reactions_cases(), quick=1000, thorough=30000,
              rule="as_reactions(kf=x) / (kb=x): stoichiometries kept / swapped, given rate kept, kf/kb == K",
              tolerances={"float_ratio_rel": RATE_RTOL}),
 ]
